@@ -235,6 +235,37 @@ def run(fx, rep):
             rep.check(c in OPERATORS, 'R7', 'evaluated-in-place/%s' % c, F.loc_of(t['span']), 'operator %s' % c,
                       'Value::resolve evaluates calls of %r in place: a host function registered under that name never runs for that call shape, and x.%s() and %s(x) can disagree' % (c, c, c))
     rep.floor('R7', 19)
+    # ---------------- R8 who may read the unevaluated call
+    rep.rule('R8', 'only the extractors and resolvers read FunctionContext.{args, arg_idx, this, ptx}: a built-in that inspects the raw argument expressions behaves differently for x.f(a) and f(x, a)')
+    ALLOWED8 = re.compile(r'^(cel_interpreter::magic::(arg_expr_from_context|arg_value_from_context)|<cel_interpreter::magic::This<T> as cel_interpreter::magic::FromContext<.*>>::from_context|'
+                          r'<(cel_parser::Expression|cel_interpreter::resolvers::(Argument|AllArguments)) as cel_interpreter::resolvers::Resolver>::resolve|cel_interpreter::functions::FunctionContext(::<.*>)?::\w+)(::\{closure#\d+\})*$')
+    n8 = 0
+    for ib in fx.bodies.values():
+        if ib.crate != 'cel_interpreter' or ib.is_derived() or ib.raw['kind'] == 'Promoted':
+            continue
+        n8 += 1
+        hits = set()
+        def scan(o):
+            if isinstance(o, dict):
+                if 'l' in o and isinstance(o.get('p'), list):
+                    ty = ib.locals[o['l']]['ty'] if o['l'] < len(ib.locals) else ''
+                    if 'FunctionContext' in ty:
+                        for pr in o['p']:
+                            if pr.get('k') == 'Field' and pr.get('name') in ('args', 'arg_idx', 'this', 'ptx'):
+                                hits.add(pr['name'])
+                            if pr.get('k') == 'Field':
+                                break       # only the first field below the context itself
+                for v in o.values():
+                    scan(v)
+            elif isinstance(o, list):
+                for v in o:
+                    scan(v)
+        scan(ib.raw['blocks'])
+        if hits and not ALLOWED8.match(F.norm_path(ib.path) if not ib.path.startswith('<') else ib.path):
+            fn = re.sub(r'::\{closure#\d+\}', '/closure', F.norm_path(ib.path).split('::', 1)[-1])
+            rep.violation('R8', 'raw-call-access/%s/%s' % (fn, '+'.join(sorted(hits))), ib.loc(),
+                          '%s reads FunctionContext.%s directly: only the extractors may look at the unevaluated call (the first raw argument is the receiver in f(x, a) but the first argument in x.f(a))' % (F.norm_path(ib.path), '/'.join(sorted(hits))))
+    rep.check(n8 >= 250, 'R8', 'bodies-scanned', 'interpreter/src', '%d interpreter bodies scanned' % n8, 'only %d bodies scanned (anchor lost)' % n8)
     rep.floor('R3', 6)
 
 
